@@ -58,6 +58,10 @@ ArchStep ==
        \* tests build graphs): what the rules are judged on must be exactly that tree and that import relation
        /\ IF a = ArchOf(j.given) THEN TRUE
           ELSE Report("C01", "architecture-differs-from-the-modules-and-imports-it-was-built-from", j.a)
+       \* ... and its hierarchy is the parent/child relation of the names
+       /\ IF "hier" \notin DOMAIN j
+             \/ PairSet(j.hier) = {<<SubSeq(m, 1, Len(m) - 1), m>> : m \in {m \in a.modules : Len(m) > 1}}
+          THEN TRUE ELSE Report("C01,C04", "hierarchy-differs-from-the-module-names", j.a)
        \* "first" marks the first event of an episode: episodes are independent sessions, and the
        \* observation variables of the previous one are dropped (keeps states small, validation linear)
        /\ archs' = IF j.first THEN (j.a :> a) ELSE (j.a :> a) @@ archs
